@@ -18,6 +18,7 @@ import KadDHT.Driver.C15
 import KadDHT.Driver.C16
 import KadDHT.Driver.C11
 import KadDHT.Driver.C12
+import KadDHT.Driver.C05
 open KadDHT.Driver
 
 def main (args : List String) : IO UInt32 := do
@@ -25,6 +26,8 @@ def main (args : List String) : IO UInt32 := do
   | ["C18"] => runPure C18.handle; return 0
   | ["C18v"] => runPure C18v.handle; return 0
   | ["C19"] => runLoop C19.step {}; return 0
+  | ["C05"] => runLoop C05.step {}; return 0
+  | ["C05v"] => runLoop C05.verdict {}; return 0
   | ["C12"] => runLoop C12.step { self := 0 }; return 0
   | ["C12v"] => runLoop C12.verdict {}; return 0
   | ["C12r"] => runLoop C12.rStep {}; return 0
